@@ -1,6 +1,6 @@
 (* C13 — property theorems (statements only; proofs are in C13/Proofs.v and C13/Taps.v) *)
 From Coq Require Import ZArith QArith Qabs List Bool Sorted Permutation.
-From PPV Require Import Base.QN C13.Model C13.Proofs C13.Taps.
+From PPV Require Import Base.QN C13.Model C13.Proofs C13.Taps C13.Invariant.
 Import ListNotations.
 Open Scope Q_scope.
 
@@ -65,15 +65,21 @@ Theorem C13_check_each_level_off_refuted :
 Proof. exact check_each_level_off_refuted. Qed.
 Print Assumptions C13_check_each_level_off_refuted.
 
-(* freshness fails for CharacteristicControl (its is_converged writes): single level, normal return, the value in the element
-   table differs from the one the last calculation saw *)
-Theorem C13_fresh_results_refuted :
+(* every modelled controller kind (discrete / continuous tap, const, characteristic) has an is_converged that leaves the
+   state alone, so C13_level_exit_converged (results fresh on exit) applies to all of them *)
+Theorem C13_is_converged_pure : forall c k s, snd (c_conv (mk_ctrl c k) s) = s.
+Proof. exact mk_ctrl_pure. Qed.
+Print Assumptions C13_is_converged_pure.
+
+(* before "fix: CharacteristicControl writes its set values in control_step, not in is_converged" freshness failed: single
+   level, normal return, the value in the element table differed from the one the last calculation saw (regression witness) *)
+Theorem C13_fresh_results_old_refuted :
   exists (cs : list entry) (s s' : cst) t,
     G13 (match ctrl_variables _ cs with Some (co, _) => co | None => [] end) = true /\
-    run_net 30 false true cs s = Some (Ok, s', t) /\
+    run_net_old 30 false true cs s = Some (Ok, s', t) /\
     exists v, last_run_vars t = Some v /\ feq_opt (get 7 v) (get 7 (vars s')) = false.
 Proof. exact fresh_results_refuted. Qed.
-Print Assumptions C13_fresh_results_refuted.
+Print Assumptions C13_fresh_results_old_refuted.
 
 (* invariants: a predicate kept by every controller method and by the calculation holds for every state of the call trace
    and for the returned state (used for the tap bounds over whole runs) *)
@@ -84,6 +90,19 @@ Theorem C13_invariant_over_runs : forall St run (P : St -> Prop),
   run_control St run max_iter cod cel ir ls s = (o, s', t) -> trace_ok St P t /\ P s'.
 Proof. exact run_control_keeps. Qed.
 Print Assumptions C13_invariant_over_runs.
+
+(* "tap controllers never move a tap outside [tap_min, tap_max]" over whole runs: for every controller table whose kinds are
+   well-formed (continuous controllers check the bounds with tap_min <= tap_max; the controllers of one transformer read the
+   same limits; characteristic controllers do not write a controlled tap_pos), every power-flow oracle, levels, orders,
+   max_iter and flags: taps that start inside their bounds are inside them in every state of the call trace and on return
+   (also when an error is raised) *)
+Theorem C13_taps_in_bounds_over_runs : forall max_iter cod cel (cs : list entry) s o s' t,
+  WF (map (fun e => snd (e_obj e)) cs) ->
+  Pinv (map (fun e => snd (e_obj e)) cs) s ->
+  run_net max_iter cod cel cs s = Some (o, s', t) ->
+  trace_ok cst (Pinv (map (fun e => snd (e_obj e)) cs)) t /\ Pinv (map (fun e => snd (e_obj e)) cs) s'.
+Proof. exact taps_in_bounds_over_runs. Qed.
+Print Assumptions C13_taps_in_bounds_over_runs.
 
 (* ---- tap controllers *)
 Theorem C13_discrete_converged_iff : forall t lo up s,
@@ -98,18 +117,32 @@ Theorem C13_continuous_converged_iff : forall t k s,
 Proof. exact cont_converged_iff. Qed.
 Print Assumptions C13_continuous_converged_iff.
 
-(* G: integral tap data.  A discrete step from a position inside the bounds stays inside (and integral) *)
-Theorem C13_discrete_tap_in_bounds_partial : forall t lo up vm x,
+(* a discrete step from ANY position inside the bounds stays inside [tap_min, tap_max] *)
+Theorem C13_discrete_tap_in_bounds : forall t lo up vm x,
+  t_min t <= x <= t_max t -> t_min t <= disc_new_tap t lo up vm x <= t_max t.
+Proof. exact disc_new_tap_in_bounds. Qed.
+Print Assumptions C13_discrete_tap_in_bounds.
+
+(* and from an integral position it is the plain +-1 step *)
+Theorem C13_discrete_step_is_unit_step : forall t lo up vm x,
+  integral x -> integral (t_min t) -> integral (t_max t) -> t_min t <= x <= t_max t ->
+  disc_new_tap t lo up vm x == x + disc_incr t lo up vm (Some x).
+Proof. exact disc_new_tap_integral. Qed.
+Print Assumptions C13_discrete_step_is_unit_step.
+
+(* the rule before "fix: DiscreteTapControl does not step past tap_min / tap_max from a fractional tap position"
+   (tap_pos += increment) kept the bounds only for integral tap data; regression witness at 3/2 with tap_max 2 *)
+Theorem C13_discrete_tap_in_bounds_old_partial : forall t lo up vm x,
   integral x -> integral (t_min t) -> integral (t_max t) ->
   t_min t <= x <= t_max t ->
   t_min t <= x + disc_incr t lo up vm (Some x) <= t_max t /\ integral (x + disc_incr t lo up vm (Some x)).
 Proof. exact disc_incr_in_bounds. Qed.
-Print Assumptions C13_discrete_tap_in_bounds_partial.
+Print Assumptions C13_discrete_tap_in_bounds_old_partial.
 
-Theorem C13_discrete_tap_in_bounds_refuted :
+Theorem C13_discrete_tap_in_bounds_old_refuted :
   exists t lo up vm x, t_min t <= x <= t_max t /\ ~ (x + disc_incr t lo up vm (Some x) <= t_max t).
 Proof. exact disc_fractional_refuted. Qed.
-Print Assumptions C13_discrete_tap_in_bounds_refuted.
+Print Assumptions C13_discrete_tap_in_bounds_old_refuted.
 
 Theorem C13_continuous_tap_in_bounds_partial : forall t k vm tap,
   k_check k = true -> t_min t <= t_max t ->
@@ -147,6 +180,19 @@ Theorem C13_order_within_level : forall A (cs : list (centry A)) lv,
   Permutation (level_members A cs lv) (filter (in_level A lv) cs).
 Proof. exact level_members_spec. Qed.
 Print Assumptions C13_order_within_level.
+
+(* non-vacuity of the whole-run invariant: the reproduced two-level run satisfies WF and starts inside the bounds *)
+Example C13_invariant_nonvacuous :
+  WF (map (fun e : entry => snd (e_obj e)) w_cs) /\ Pinv (map (fun e : entry => snd (e_obj e)) w_cs) w_state.
+Proof.
+  split.
+  - split; [|split].
+    + intros t p [H|[H|[]]]; discriminate.
+    + intros k1 k2 t1 t2 [<-|[<-|[]]] [<-|[<-|[]]] E1 E2 E; inversion E1; inversion E2; subst; try discriminate;
+        split; reflexivity.
+    + intros k t in_res inp out pts tol _ _ [H|[H|[]]]; discriminate.
+  - intros k t [<-|[<-|[]]] E; inversion E; subst; cbn; split; discriminate.
+Qed.
 
 (* non-vacuity: the hypotheses of the partial theorems are satisfiable by the reproduced single-level run *)
 Example C13_nonvacuous :
